@@ -302,6 +302,8 @@ def int_from_bytes(eng, st, args, kwargs):
     if isinstance(data, bytes):
         return int.from_bytes(data, order)
     data = as_sbytes(data)
+    if order == "big" and len(data.segs) == 1 and isinstance(data.segs[0], View):
+        return SPayInt(data.segs[0])
     items = ops.bytes_items(st, data)
     if items is not None and len(items) <= 8:
         if order == "little":
